@@ -204,7 +204,14 @@ class Check:
 
     def conclude(self) -> int:
         for r in self.rules:
-            r.finish()
+            try:
+                r.finish()
+            except AnalysisError as e:
+                # a floor that is missed because another rule of the same property already reports the
+                # construct as a violation must not turn the report into "analysis broken"
+                if not self.violations:
+                    raise
+                print(f"NOTE: {e} (not fatal: the property already has a violation)")
         for r in self.rules:
             print(
                 f"{r.rid}: {r.count()} instances (floor {r.floor}); holds={r.count(('holds',))} "
